@@ -79,6 +79,11 @@ def parseOp (w : World) (line : String) : Option Op :=
   | ["sphases", k, ps] => do
     let ps ← parsePhs ps
     if ps.isEmpty then none else some (.setPhases (← k.toNat?) ps)
+  | ["sphases", k, ps, form] => do
+    -- the container the labels are handed over in (tuple, list, set, str, generator) makes no difference
+    let ps ← parsePhs ps
+    if ps.isEmpty || !(["tuple", "list", "set", "str", "gen"].contains form) then none
+    else some (.setPhases (← k.toNat?) ps)
   | ["sphase", k, ls] => do some (.setPhase (← k.toNat?) (← parseLetters ls))
   | ["reduce", k] => do some (.reduce (← k.toNat?))
   | ["asstream", k] => do some (.asStream (← k.toNat?))
@@ -110,6 +115,13 @@ def parseOp (w : World) (line : String) : Option Op :=
   | _ => none
 
 def step (st : St) (line : String) : St × String :=
+  -- `chems n` before the first stream: the number of chemicals of the case
+  match splitWs line with
+  | ["chems", n] =>
+    match n.toNat? with
+    | some n => if st.w.nStr == 0 && 2 ≤ n && n ≤ 4 then ({ w := { st.w with n := n } }, s!"chems={n}") else (st, "bad-op")
+    | none => (st, "bad-op")
+  | _ =>
   match parseOp st.w line with
   | none => (st, "bad-op")
   | some op =>
